@@ -397,103 +397,7 @@ func C17(ctx *core.Ctx, r *core.Report) {
 	r.Count("comparable_implementers", len(impls))
 	r.Count("scalar_value_kinds", len(scalars))
 
-	// --- compare-order ----------------------------------------------------
-	nMethods := 0
-	for _, named := range impls {
-		var fn *ssa.Function
-		for i := 0; i < named.NumMethods(); i++ {
-			if named.Method(i).Name() == "Compare" {
-				fn = ctx.Prog.FuncValue(named.Method(i))
-			}
-		}
-		if fn == nil || len(fn.Blocks) == 0 {
-			r.Fatalf("Compare method of %s has no body", named.Obj().Name())
-			continue
-		}
-		nMethods++
-		name := core.FnName(fn)
-		a := &cmpAnalysis{ctx: ctx, f: fn, name: name, memo: map[ssa.Value]cmpClass{}}
-		var problems []string
-		nret := 0
-		for _, ret := range core.Returns(fn) {
-			if len(ret.Results) != 1 {
-				continue
-			}
-			for _, leaf := range core.PhiLeaves(ret.Results[0], ret.Block()) {
-				nret++
-				pos := ctx.Pos(ret.Pos())
-				if c, ok := core.ConstInt(leaf.V); ok {
-					rel := relLT | relEQ | relGT
-					boolHint := 0 // bare boolean receiver/argument condition
-					for _, pc := range core.PathConds(leaf.Block) {
-						if cr, ok := a.condRel(pc.V, pc.True); ok {
-							rel &= cr
-						} else if isBoolType(pc.V.Type()) {
-							cl := a.class(pc.V)
-							if !cl.diff && cl.side == sX {
-								if pc.True {
-									boolHint |= relGT | relEQ
-								} else {
-									boolHint |= relLT | relEQ
-								}
-							} else if !cl.diff && cl.side == sY {
-								if pc.True {
-									boolHint |= relLT | relEQ
-								} else {
-									boolHint |= relGT | relEQ
-								}
-							}
-						}
-					}
-					// the edge that selects this phi leaf may itself be a branch
-					if len(leaf.Block.Instrs) > 0 {
-						if ifi, ok := leaf.Block.Instrs[len(leaf.Block.Instrs)-1].(*ssa.If); ok && leaf.Block != ret.Block() {
-							for si, s := range leaf.Block.Succs {
-								if s == ret.Block() || s.Dominates(ret.Block()) && len(s.Preds) == 1 {
-									if cr, ok := a.condRel(ifi.Cond, si == 0); ok {
-										rel &= cr
-									}
-								}
-							}
-						}
-					}
-					if boolHint != 0 {
-						rel &= boolHint
-					}
-					want := relEQ
-					if c < 0 {
-						want = relLT
-					} else if c > 0 {
-						want = relGT
-					}
-					if rel&^want != 0 || rel == 0 {
-						problems = append(problems, fmt.Sprintf("%s: returns %d where the dominating comparisons allow receiver%sargument", pos, c, relString(rel)))
-					}
-					continue
-				}
-				cl := a.class(leaf.V)
-				switch {
-				case cl.diff && cl.reversed:
-					problems = append(problems, fmt.Sprintf("%s: returns argument-vs-receiver difference (reversed orientation)", pos))
-				case cl.diff:
-					// exactness problems are collected in a.subs
-				default:
-					problems = append(problems, fmt.Sprintf("%s: returned value %s is not derived from a comparison of receiver and argument", pos, leaf.V.Name()))
-				}
-			}
-		}
-		problems = append(problems, a.subs...)
-		ok := len(problems) == 0
-		msg := fmt.Sprintf("%d return leaves, %d exact differences", nret, a.subOK)
-		if !ok {
-			msg = core.Join(problems)
-		}
-		r.Ob("compare-order", name, ctx.Pos(fn.Pos()), ok, msg)
-		if ok {
-			r.Sample("compare-order %s: %s", name, msg)
-		}
-	}
-	r.Floor("compare-order", nMethods, 15)
+	c17CompareOrder(ctx, r, impls)
 
 	// --- equal-via-compare --------------------------------------------------
 	if eq := ctx.Fn("val", "Equal"); eq == nil {
@@ -686,7 +590,17 @@ func c17SortSearch(ctx *core.Ctx, r *core.Report) {
 	// Less: CompareVals(a,b) < 0
 	lc := calls(less, cv)
 	okLess := lc != nil && cmpAgainstZero(lc, token.LSS)
-	r.Ob("sort-search-one-comparator", "nodeutil.sliceSorter.Less", ctx.Pos(less.Pos()), okLess, "Less must be val.CompareVals(a,b) < 0")
+	if okLess {
+		// and on every path: no return of Less is decided by anything but that call
+		for _, ret := range core.Returns(less) {
+			for _, op := range core.RetOperands(ret) {
+				if !valueDependsOn(op, lc, map[ssa.Value]bool{}) {
+					okLess = false
+				}
+			}
+		}
+	}
+	r.Ob("sort-search-one-comparator", "nodeutil.sliceSorter.Less", ctx.Pos(less.Pos()), okLess, "Less must be val.CompareVals(a,b) < 0 on every path: an ordering of the index decided by anything else (the first key leaf only, say) disagrees with the comparator the binary search uses, and entries that exist are not found")
 	fc := calls(ff, cv)
 	okFind := fc != nil && cmpAgainstZero(fc, token.GEQ)
 	r.Ob("sort-search-one-comparator", "nodeutil.sliceSorter.findFunc", ctx.Pos(ff.Pos()), okFind, "sort.Search predicate must be val.CompareVals(entry,key) >= 0 (the first index not less than the key)")
@@ -953,4 +867,106 @@ func c17CompareSignOnly(ctx *core.Ctx, r *core.Report) {
 		}
 	}
 	r.Floor("compare-sign-only", n, 4)
+}
+
+// c17CompareOrder: the compare-order rule (see the head of this file), also used by C16,
+// whose comparisons are decided by these Compare methods.
+func c17CompareOrder(ctx *core.Ctx, r *core.Report, impls []*types.Named) {
+	// --- compare-order ----------------------------------------------------
+	nMethods := 0
+	for _, named := range impls {
+		var fn *ssa.Function
+		for i := 0; i < named.NumMethods(); i++ {
+			if named.Method(i).Name() == "Compare" {
+				fn = ctx.Prog.FuncValue(named.Method(i))
+			}
+		}
+		if fn == nil || len(fn.Blocks) == 0 {
+			r.Fatalf("Compare method of %s has no body", named.Obj().Name())
+			continue
+		}
+		nMethods++
+		name := core.FnName(fn)
+		a := &cmpAnalysis{ctx: ctx, f: fn, name: name, memo: map[ssa.Value]cmpClass{}}
+		var problems []string
+		nret := 0
+		for _, ret := range core.Returns(fn) {
+			if len(ret.Results) != 1 {
+				continue
+			}
+			for _, leaf := range core.PhiLeaves(ret.Results[0], ret.Block()) {
+				nret++
+				pos := ctx.Pos(ret.Pos())
+				if c, ok := core.ConstInt(leaf.V); ok {
+					rel := relLT | relEQ | relGT
+					boolHint := 0 // bare boolean receiver/argument condition
+					for _, pc := range core.PathConds(leaf.Block) {
+						if cr, ok := a.condRel(pc.V, pc.True); ok {
+							rel &= cr
+						} else if isBoolType(pc.V.Type()) {
+							cl := a.class(pc.V)
+							if !cl.diff && cl.side == sX {
+								if pc.True {
+									boolHint |= relGT | relEQ
+								} else {
+									boolHint |= relLT | relEQ
+								}
+							} else if !cl.diff && cl.side == sY {
+								if pc.True {
+									boolHint |= relLT | relEQ
+								} else {
+									boolHint |= relGT | relEQ
+								}
+							}
+						}
+					}
+					// the edge that selects this phi leaf may itself be a branch
+					if len(leaf.Block.Instrs) > 0 {
+						if ifi, ok := leaf.Block.Instrs[len(leaf.Block.Instrs)-1].(*ssa.If); ok && leaf.Block != ret.Block() {
+							for si, s := range leaf.Block.Succs {
+								if s == ret.Block() || s.Dominates(ret.Block()) && len(s.Preds) == 1 {
+									if cr, ok := a.condRel(ifi.Cond, si == 0); ok {
+										rel &= cr
+									}
+								}
+							}
+						}
+					}
+					if boolHint != 0 {
+						rel &= boolHint
+					}
+					want := relEQ
+					if c < 0 {
+						want = relLT
+					} else if c > 0 {
+						want = relGT
+					}
+					if rel&^want != 0 || rel == 0 {
+						problems = append(problems, fmt.Sprintf("%s: returns %d where the dominating comparisons allow receiver%sargument", pos, c, relString(rel)))
+					}
+					continue
+				}
+				cl := a.class(leaf.V)
+				switch {
+				case cl.diff && cl.reversed:
+					problems = append(problems, fmt.Sprintf("%s: returns argument-vs-receiver difference (reversed orientation)", pos))
+				case cl.diff:
+					// exactness problems are collected in a.subs
+				default:
+					problems = append(problems, fmt.Sprintf("%s: returned value %s is not derived from a comparison of receiver and argument", pos, leaf.V.Name()))
+				}
+			}
+		}
+		problems = append(problems, a.subs...)
+		ok := len(problems) == 0
+		msg := fmt.Sprintf("%d return leaves, %d exact differences", nret, a.subOK)
+		if !ok {
+			msg = core.Join(problems)
+		}
+		r.Ob("compare-order", name, ctx.Pos(fn.Pos()), ok, msg)
+		if ok {
+			r.Sample("compare-order %s: %s", name, msg)
+		}
+	}
+	r.Floor("compare-order", nMethods, 15)
 }
